@@ -264,6 +264,7 @@ def run_check(H, pid, tier, seed, nproc, write_evidence=True, only=None):
         print(f'  - {c}: jobs={cd["jobs"]} paths={cd["paths"]} obligations={cd["discharged"]}/{cd["obligations"]} cpu_s={cd["wall_s"]} complete={cd["complete"]}')
     for ln in lines:
         print(ln)
-    if harness_errors:
-        return 3
-    return 1 if violations else 0
+    # a violation reproduced on the real build is reported as such even if some other condition of the same run broke
+    if violations:
+        return 1
+    return 3 if harness_errors else 0
